@@ -18,6 +18,8 @@ import (
 	"github.com/markusressel/fan2go/internal/controller"
 	"github.com/markusressel/fan2go/internal/fans"
 	"github.com/markusressel/fan2go/internal/persistence"
+	"github.com/markusressel/fan2go/internal/statistics"
+	"github.com/prometheus/client_golang/prometheus"
 	"github.com/markusressel/fan2go/internal/util"
 )
 
@@ -80,6 +82,8 @@ type c16Case struct {
 	// OptionVia: how the user gave runFanInitializationInParallel - "" set directly by the harness, "yaml" in the
 	// configuration file, "env" as environment variable next to a configuration file named explicitly (-c)
 	OptionVia string `json:"optionVia,omitempty"`
+	// Scraped: a Prometheus scrape of the controller metrics (the real collector) every few milliseconds during the analyses
+	Scraped bool `json:"scraped,omitempty"`
 }
 
 func (c *c16Case) cfgMap(i int) bool { return i < len(c.CfgMap) && c.CfgMap[i] }
@@ -254,6 +258,18 @@ func runC16(ctx *Ctx, c *c16Case) (intervals []c16Interval, ok bool) {
 	d.Mu.Unlock()
 	cctx, cancel := context.WithCancel(context.Background())
 	var wg sync.WaitGroup
+	if c.Scraped {
+		col := statistics.NewControllerCollector(ctrls)
+		wg.Add(1)
+		go func() {
+			defer wg.Done()
+			for cctx.Err() == nil {
+				ch := make(chan prometheus.Metric, 16*len(ctrls)+16)
+				_, _ = Guard(func() { col.Collect(ch) })
+				time.Sleep(2 * time.Millisecond)
+			}
+		}()
+	}
 	for i := 0; i < n; i++ {
 		wg.Add(1)
 		go func(i int) {
@@ -347,6 +363,7 @@ func genC16(r *rand.Rand) *c16Case {
 		c.Kinds = append(c.Kinds, pick(r, "hwmon", "hwmon", "file"))
 	}
 	c.OptionVia = pick(r, "", "", "yaml", "env")
+	c.Scraped = r.Intn(2) == 0
 	if r.Intn(4) == 0 {
 		// some hwmon fans carry a pwmMap in their configuration entry
 		for i := 0; i < n; i++ {
@@ -375,6 +392,9 @@ func init() {
 			ctx.Eval(1)
 			cnt, desc := c16Overlaps(iv)
 			class := fmt.Sprintf("fans=%d:viaRun=%v:fileFans=%d", len(c.Levels), c.ViaRun, strings.Count(strings.Join(c.Kinds, ","), "file"))
+			if c.Scraped {
+				class += ":scraped"
+			}
 			if c.OptionVia != "" {
 				class += ":option-via-" + c.OptionVia
 			}
